@@ -515,7 +515,7 @@ def finish_outcome(out, cpu, env, module):
             di = module.debug_info
             if di is not None:
                 try:
-                    st = di.find_stmt(cpu.trapped_addr)
+                    st = di.find_stmt(cpu.trapped_addr, cpu)
                     out.line = getattr(st, 'source_start_line', None) if st else None
                 except Exception:
                     out.line = None
